@@ -274,6 +274,9 @@ impl<'a, 'b> Sem<'a, 'b> {
         bound.push(("IonBound".into(), v_comp("IonBound")));
         bound.push(("C1".into(), v_comp("C1")));
         bound.push(("C2".into(), v_comp("C2")));
+        // names that merely start like the fragment names: ordinary components
+        bound.push(("FragmentList".into(), v_comp("FragmentList")));
+        bound.push(("_FragmentHost".into(), v_comp("_FragmentHost")));
         bound.push((
             "NS".into(),
             v_obj(vec![
@@ -281,6 +284,8 @@ impl<'a, 'b> Sem<'a, 'b> {
                 ("el", v_comp("NS.el")),
                 ("k-1", v_comp("NS.k-1")),
                 ("button", v_comp("NS.button")),
+                ("FragmentGroup", v_comp("NS.FragmentGroup")),
+                ("KeepAliveBox", v_comp("NS.KeepAliveBox")),
                 ("a", v_obj(vec![("B", v_comp("NS.a.B")), ("div", v_comp("NS.a.div"))])),
             ]),
         ));
@@ -472,11 +477,11 @@ impl<'a, 'b> Sem<'a, 'b> {
         match self.c.weighted(&[10 - cw.min(9), cw, custom_w, sp]) {
             0 => Tag::Html(self.c.choose(HTML_TAGS).to_string()),
             1 => match self.c.pick(6) {
-                0 | 1 => Tag::Bound(self.c.choose(&["C1", "C2"]).to_string()),
+                0 | 1 => Tag::Bound(self.c.choose(&["C1", "C2", "C1", "C2", "FragmentList", "_FragmentHost"]).to_string()),
                 // (`NS.el`'s property name is matched by the "el" pattern: still a component)
                 // (`NS.button` / `NS.a.div`: the last property is an HTML tag name - still a member host)
-                2 => Tag::Member(self.c.choose(&["NS.C", "NS.a.B", "NS.el", "NS.k-1", "NS.button", "NS.a.div"]).to_string()),
-                3 | 4 => Tag::Unbound(self.c.choose(&["Foo", "foo-bar", "Bar", "myComp", "Ünder", "ünder", "日本"]).to_string()),
+                2 => Tag::Member(self.c.choose(&["NS.C", "NS.a.B", "NS.el", "NS.k-1", "NS.button", "NS.a.div", "NS.FragmentGroup", "NS.KeepAliveBox"]).to_string()),
+                3 | 4 => Tag::Unbound(self.c.choose(&["Foo", "foo-bar", "Bar", "myComp", "Ünder", "ünder", "日本", "FragmentBox", "KeepAlives"]).to_string()),
                 _ => Tag::Bound("C1".into()),
             },
             2 => {
@@ -567,7 +572,7 @@ impl<'a, 'b> Sem<'a, 'b> {
                     let name = self
                         .c
                         .choose(&[
-                            "id", "title", "value", "data-x", "aria-label", "foo", "xlink:href", "a:b",
+                            "id", "title", "value", "data-x", "aria-label", "foo", "xlink:href", "a:b", "nativeOn:focus",
                             "key", "ref", "type", "once", "modelValue", "innerHTML",
                             // names at the boundary of the directive rule (`v-` / `v[A-Z]` only)
                             "v", "v1", "v_size", "v$", "value2", "vmodel",
@@ -665,7 +670,7 @@ impl<'a, 'b> Sem<'a, 'b> {
                             });
                         }
                         _ => {
-                            let name = self.c.choose(&["onClick", "onFoo", "onUpdate:modelValue"]);
+                            let name = self.c.choose(&["onClick", "onFoo", "onUpdate:modelValue", "on:click"]);
                             if name == "onUpdate:modelValue" && self.cfg.vmodel {
                                 continue;
                             }
